@@ -37,8 +37,19 @@ def _work(shard):
         a = ev.Acc()
         a.harness_errors.append(f"{e}\n{traceback.format_exc()}")
         return a
-    except Exception as e:  # noqa: BLE001 - a bug in the harness itself
+    except Exception as e:  # noqa: BLE001
         a = ev.Acc()
+        tb = traceback.extract_tb(e.__traceback__)
+        if tb and tb[-1].filename.startswith("/repo/"):
+            # raised INSIDE the library on a path where the harness expected it to succeed: a finding about
+            # the library (exit 1), not a harness error.  Replay = re-run of this shard.
+            where = f"{tb[-1].filename.split('/src/')[-1]}:{tb[-1].name}"
+            a.violation(
+                {"symptom": "library-raised-unexpectedly", "type": type(e).__name__, "where": where},
+                {"shard_replay": list(shard) if isinstance(shard, (list, tuple)) else shard},
+                f"{type(e).__name__} raised inside {where}: {str(e)[:200]}",
+            )
+            return a
         a.harness_errors.append(f"unexpected {type(e).__name__}: {e}\n{traceback.format_exc()}")
         return a
 
@@ -52,7 +63,12 @@ def main(argv):
     if argv[1] == "--replay":
         rep = json.load(open(argv[2]))
         _init(pid)
-        vs = mod.replay(rep)
+        if "shard_replay" in rep:
+            sh = rep["shard_replay"]
+            a = _work(tuple(sh) if isinstance(sh, list) else sh)
+            vs = [v["message"] for v in a.violations.values()] + a.harness_errors
+        else:
+            vs = mod.replay(rep)
         for m in vs:
             print("REPLAY-VIOLATION", m)
         if vs:
